@@ -255,6 +255,13 @@ pub fn start_watchdog(ctx: &ShardCtx, out: &Path, limit: Duration) {
     });
 }
 
+/// Change the per-case watchdog limit of this shard process.
+pub fn set_watchdog_limit(limit: Duration) {
+    if let Some(w) = WATCH.lock().unwrap().as_mut() {
+        w.limit = limit;
+    }
+}
+
 impl ShardCtx {
     /// Mark the start of a (potentially non-terminating) case; `res` is snapshotted so that
     /// nothing observed so far is lost if the watchdog has to end the process.
